@@ -27,7 +27,7 @@ CHECKS = {
     ),
     "C10": (
         "exploration",
-        "Every file-system effect of scan / scan-stdin / list / fix / API runs (1-3 operations in one process, 1-5 files) is observed at the audit-event seam and by before/after snapshots: read-only operations perform no mutating event outside the private temp dir and leave nothing behind; in fix runs bytes changed <=> 'Fixed:' / files_fixed <=> fixed exit code; files whose reference scan shows no fixable failure stay byte-identical; probe-only runs match a hand-verifiable fix model; read-only and fix operations are also judged under injected contained faults (rule callback, parser, OS error incl. sticky EPERM at the replace step, log-file close); the same relation is checked through PyMarkdownApi in both schemes. Seeded sampling over the document pool.",
+        "Every file-system effect of scan / scan-stdin / list / fix / API runs (1-3 operations in one process, 1-5 files) is observed at the audit-event seam and by before/after snapshots: read-only operations perform no mutating event outside the private temp dir and leave nothing behind; in fix runs bytes changed <=> 'Fixed:' / files_fixed <=> fixed exit code; files whose reference scan shows no fixable failure stay byte-identical; probe-only runs match a hand-verifiable fix model; read-only and fix operations are also judged under injected contained faults (rule callback, parser, OS error incl. sticky EPERM at the replace step, log-file close); the same relation is checked through PyMarkdownApi in both schemes. A quarter of the scenarios give every document of a fix operation a second (hard-link) name outside the run, which must keep its original bytes. Seeded sampling over the document pool.",
         "deterministic simulation: audit-event effect observer + snapshots, differential against solo reference runs, tiny fix model",
         "4.C10",
         "Faulted fix operations are judged here only for truthfulness (announced <=> changed <=> result); what a faulted fix may leave on disk is C15's clause. sys.addaudithook sees every CPython-level file operation; effects through other processes are out of scope (pymarkdown starts none).",
@@ -48,7 +48,7 @@ CHECKS = {
     ),
     "C15": (
         "fault_enumeration",
-        "Per seeded workload (1-5 files, scan/fix, with/without --continue-on-error) faults are taken from the sites its dry run reached: exception at rule callbacks (raise / run-then-raise), parser failure before parsing and at provider reads, undecodable file at each position, process kill (incl. after-open truncation and k-byte prefix) and OS errors at every audited file-system step of a fix incl. between emulated copy chunks, kills at rule-dispatch/parser sites, KeyboardInterrupt at the same sites, sticky (repeating) OS errors, faults at write/flush/close of every written file (write-proxy seam), two faults per run, CLI and API, hard-linked inputs, single-file-system and cross-device (EXDEV) worlds, chains where the fault is followed by further files, and a standard-input shape (scan-stdin / scan_string: faults at callbacks, parser, provider reads, every step of the spool file, undecodable input). Thorough tier enumerates reached fs sites x actions, callback kinds x first/middle/last, parser calls and file positions per workload (capped at 120 faults per workload, seeded choice beyond that). Oracle: exit = system error, file named, others == 'failing file absent' run, every file in {original, fully fixed}, no temp files.",
+        "Per seeded workload (1-5 files, scan/fix, with/without --continue-on-error) faults are taken from the sites its dry run reached: exception at rule callbacks (raise / run-then-raise), parser failure before parsing and at provider reads, undecodable file at each position, process kill (incl. after-open truncation and k-byte prefix) and OS errors at every audited file-system step of a fix incl. between emulated copy chunks, kills at rule-dispatch/parser sites, KeyboardInterrupt at the same sites, sticky (repeating) OS errors, faults at write/flush/close of every written file (write-proxy seam), two faults per run, CLI and API, hard-linked inputs, documents named through symbolic links into another directory, single-file-system and cross-device (EXDEV) worlds, chains where the fault is followed by further files, and a standard-input shape (scan-stdin / scan_string: faults at callbacks, parser, provider reads, every step of the spool file, undecodable input). Thorough tier enumerates reached fs sites x actions, callback kinds x first/middle/last, parser calls and file positions per workload (capped at 120 faults per workload, seeded choice beyond that). Oracle: exit = system error, file named, others == 'failing file absent' run, every file in {original, fully fixed}, no temp files.",
         "deterministic simulation: per-workload fault-site enumeration with kill / OS-error / exception injection, differential oracle",
         "4.C15",
         "Process-crash model (completed syscalls durable; no power-loss model). Kill points at audited events and between emulated copy chunks; a kill inside one write is represented by synthesised truncated / prefix states.",
@@ -69,10 +69,10 @@ CHECKS = {
     ),
     "C19": (
         "exploration",
-        "Seeded directory trees on the real scratch file system x 1-3 path arguments in several spellings (relative, ./, .., absolute, `**/` and absolute globs, live and dangling symlinks, prefix-sharing sibling directories) x --recurse x --alternate-extensions for --list-files, scan, fix and list_path, under seeded directory-listing permutations, hash-seed classes and two argument orders; compared with a ~150-line executable model of the user guide's selection rules (set, once each, sorted, error short-circuit, no-files result).",
+        "Seeded directory trees on the real scratch file system x 1-3 path arguments in several spellings (relative, ./, .., absolute, `**/` and absolute globs, live and dangling symlinks, prefix-sharing sibling directories) x --recurse x --alternate-extensions for --list-files, scan, fix and list_path, under seeded directory-listing permutations, hash-seed classes and two argument orders; compared with a ~150-line executable model of the user guide's selection rules (set, once each, sorted, error short-circuit, no-files result). One scenario in ten uses a fixed tree with symbolic links to directories and argument spellings through them (link/.., link/../a.md), judged by a separate physical path resolver.",
         "deterministic simulation: seeded trees with permuted listing order vs executable reference model",
         "4.C19",
-        "The model implements glob semantics on the generated name alphabet only; unreadable directories and symlink loops are not generated.",
+        "The model implements glob semantics on the generated name alphabet only; directory links exist in the fixed directory-link tree only; unreadable directories and symlink loops are not generated.",
     ),
 }
 
